@@ -53,6 +53,10 @@ FAMILIES = {
                  MaxVars=2, MaxNodes=3, MaxObs=1, MaxActs=6, MaxRounds=3),
     # ownership: every order of dropping handles / vars / observers around stabilises (C12)
     "own_s": fam(Ctors=["var", "map", "map2", "drop"], Fs1=["id"], MaxVars=2, MaxNodes=3, MaxObs=1, MaxActs=8, MaxRounds=3),
+    # a subscription handler that drops its own (last) observer handle, with the node's handle dropped too:
+    # the node must be released afterwards (one-shot subscriptions must not leak the subgraph)
+    "ownfx_s": fam(Ctors=["var", "map", "drop", "clone"], Fs1=["id"], Effs=["h_drop"], MaxVars=1, MaxNodes=2, MaxObs=1, MaxSubs=1,
+                   MaxActs=8, MaxRounds=3),
     "ownbind_s": fam(Ctors=["var", "bind", "drop"], RecipeKinds=["map", "pick"], MaxVars=2, MaxNodes=4, MaxObs=1, MaxActs=9, MaxRounds=3, MaxH=16),
     # weak_memoize_fn called from bind closures (C20)
     "memo_s": fam(Ctors=["var", "memo", "bind", "drop"], RecipeKinds=["memo"], Fs2=["add"], MaxVars=2, MaxNodes=4,
@@ -172,7 +176,7 @@ PROPS = {
     "C11": dict(random=RND, families=plan("obs_s", "bind_s", "bindalt_s", "bindalt_s@release", "onupd_s", sim="sim_engine"), stage_modules_thorough=["stage_owntests"]),
     # in the families listed under after_drop a wrong value / broken bookkeeping in a history that dropped a handle
     # earlier is C12's business too ("... in any order ... without affecting values of the remaining graph")
-    "C12": dict(random=RND, families=plan("own_s", "ownbind_s", "obsfx_s", "eff_s", "p_xsumshared", sim="sim_engine"),
+    "C12": dict(random=RND, families=plan("own_s", "ownbind_s", "ownfx_s", "obsfx_s", "eff_s", "p_xsumshared", sim="sim_engine"),
                 after_drop=["p_xsumshared", "p_xsumshared_m"]),
     "C13": dict(families=plan("panic_s", "p_panic", "p_boom", "p_xarm"), profiles=["debug", "release"]),
     "C14": dict(families=plan("xjoin_s", "xsum_s", "p_xsum", "p_xjoin", "p_xcell", "p_xsumshared", "p_xsumctl", sim="sim_expert")),
